@@ -51,6 +51,7 @@ namespace igris
         {
             data.resize(size);
             ring_counter_init(&counter, size);
+            _size = 0;
         }
     };
 }
